@@ -27,8 +27,8 @@ type c20 struct{}
 
 func init() { register(&c20{}) }
 
-func (*c20) ID() string                      { return "C20" }
-func (*c20) Level() string                   { return "fault_enumeration" }
+func (*c20) ID() string                     { return "C20" }
+func (*c20) Level() string                  { return "fault_enumeration" }
 func (*c20) Decode(raw []byte) (any, error) { return decodeInto[SendScenario](raw) }
 
 var c20Forms = []string{"plain", "enh", "late-triple", "multiline", "enh-bare", "multiline-bare-first"}
@@ -158,13 +158,13 @@ func (p *c20) Gen(seed uint64, i int, tier string) (any, bool) {
 
 // msgSegment is what the server did for one message.
 type msgSegment struct {
-	token    string
-	mail     *refsmtpd.Event
-	rcpts    []rcptVerdict
-	data     *refsmtpd.Event
-	eod      *refsmtpd.Event
-	after    []refsmtpd.Event // replies to NOOP/RSET after the message's last transaction command
-	strict   bool             // the server answered something with its own strict 50x (dialogue went wrong)
+	token  string
+	mail   *refsmtpd.Event
+	rcpts  []rcptVerdict
+	data   *refsmtpd.Event
+	eod    *refsmtpd.Event
+	after  []refsmtpd.Event // replies to NOOP/RSET after the message's last transaction command
+	strict bool             // the server answered something with its own strict 50x (dialogue went wrong)
 }
 
 type rcptVerdict struct {
